@@ -65,7 +65,7 @@ def render (w : W) (start : Nat) : String :=
   let builds := evs.filterMap fun | .build wid aid => some s!"{wid}.{aid}" | _ => none
   let starts := evs.filterMap fun | .start aid id key => some (aid, id, key) | _ => none
   let starts := sortBy (fun (a b : Nat × Nat × Nat) => a.1 < b.1 || (a.1 == b.1 && a.2.1 < b.2.1)) starts
-  let discs := evs.filterMap fun | .discard r id true => some s!"{showReason r}:{id}" | _ => none
+  let discs := evs.filterMap fun | .discard r id (some h) => some s!"{showReason r}:{id}@{h}" | _ => none
   let hooks := evs.filterMap fun | .hook h => some (showHook h) | _ => none
   let accs := evs.filterMap fun
     | .reply id back => some (id, if back then "b" else "a") | .portClosed id => some (id, "x") | _ => none
@@ -91,6 +91,7 @@ def parseOp? (ws : List String) : Option Op :=
     let d ← if d == "-" then pure none else (parseDisc? d).map some
     pure (.settings d n.toNat?)
   | "drain" :: _ => some .drain
+  | "sethandler" :: h :: _ => some (.setHandler h.toNat?)
   | "advance" :: _ => some .advance
   | "block" :: _ => some .block
   | "release" :: n :: _ => do pure (.release (← n.toNat?))
@@ -127,7 +128,10 @@ def parseObs? (impl : String) : Option (List Ev) := do
   let starts ← (← bracket? ws "start").mapM fun b => match b.splitOn ":" with
     | [a, i, k] => do pure (Ev.start (← a.toNat?) (← i.toNat?) (← k.toNat?)) | _ => none
   let discs ← (← bracket? ws "disc").mapM fun b => match b.splitOn ":" with
-    | [r, i] => do pure (Ev.discard (← parseReason? r) (← i.toNat?) true) | _ => none
+    | [r, ih] => (match ih.splitOn "@" with
+      | [i, h] => do pure (Ev.discard (← parseReason? r) (← i.toNat?) (some (← h.toNat?)))
+      | _ => none)
+    | _ => none
   let hooks ← (← bracket? ws "hook").mapM fun b => (parseHook? b).map Ev.hook
   let accs ← (← bracket? ws "acc").mapM fun b => match b.splitOn ":" with
     | [i, r] => do
@@ -154,6 +158,7 @@ def opEvents : Op → List Ev
   | .resize n => [.requested n]
   | .settings d n => (match d with | some d => [.settings d] | none => []) ++ (match n with | some n => [.requested n] | none => [])
   | .drain => [.drainReq]
+  | .setHandler h => [.handlerSet h]
   | .release n => [.released n]
   | _ => []
 
@@ -169,7 +174,7 @@ def judge (st : St) (evs : List Ev) (te : Nat) : St × List String :=
     ({ st with o := some o' }, fresh.eraseDups)
 
 def needsFactory : Op → Bool
-  | .dispatch .. | .resize _ | .settings .. | .drain => true
+  | .dispatch .. | .resize _ | .settings .. | .drain | .setHandler _ => true
   | _ => false
 
 def step (st : St) (op impl : String) : St × StepOut :=
@@ -204,7 +209,7 @@ def step (st : St) (op impl : String) : St × StepOut :=
           | .release _ => !wAt.blocked
           | _ => false
         let nochild : Bool := match o with
-          | .kill aid => !(!wAt.stopped && (wAt.env.getActor aid).any (·.alive))
+          | .kill aid => !(!wAt.exited && (wAt.env.getActor aid).any (·.alive))
           | _ => false
         let m := render w' n ++ (if sendfail then " sendfail" else "") ++ (if noblock then " noblock" else "") ++ (if nogate then " nogate" else "") ++ (if nochild then " nochild" else "")
         let nt := (w'.env.log.drop n).any fun
